@@ -100,6 +100,11 @@ def main():
                     known_hits.append((kf, f.get("what", "")))
                 else:
                     violations.append((f.get("replay"), f.get("what", ""), ""))
+    # a deductive violation without input gets the concrete witness of the bounded engine when there is one
+    concrete = [v for v in violations if v[2] == "" and v[0] and "bounded" in os.path.basename(v[0])]
+    if concrete:
+        violations = [((concrete[0][0], v[1] + " -- failing input found by the bounded engine: " + concrete[0][1], "") if v[2] == "no-failing-input-found" else v)
+                      for v in violations]
     wall = time.time() - t0
 
     # ---- evidence ------------------------------------------------------------------------------------
